@@ -82,6 +82,17 @@ def run(chk):
                site="%s TABULATION_FACTORIES[%r]" % (P.module("atsim.potentials.config._tabulation_factories").relpath, resolved),
                found=[(c, e) for c, e, n in If.raises], expect="raise ConfigurationException under (nr mod 4 != 0)",
                key="C02.R2|factory-mod4|%s" % spelling)
+    # D: the force records are -r dV/dr "of the same function": analytic derivatives offered by package-built functions are
+    # the derivatives of their values (the rule groups of C07, evaluated here on this tree)
+    from ..report import RuleView
+    from . import c07
+    from .. import formrules as F7
+    chk.rule("C02.D", "analytic derivatives offered by package-built potential functions are d/dr of their value", 60)
+    view = RuleView(chk, "C02.D")
+    for label, fn in (("D/forms", c07.builtin_forms), ("D/combinators", c07.combinators), ("D/combinators-all", c07.combinators_all_presences),
+                      ("D/trans", c07.trans), ("D/multirange", c07.multirange), ("D/splines", lambda c, p: c07.splines(c, p, "C07.O6"))):
+        chk.attempt(label, lambda fn=fn: fn(view, P))
+    W.path_state_rule(chk, P, "C02.S", "DL_POLY TABLE write and build path")
     chk.assume("floating-point rounding of k*delpot versus the accumulated sum is not decided")
     chk.assume("an empty potential list skips the Python-API modulus check (no block is written)")
 
